@@ -182,6 +182,7 @@ let () =
                    (match String.split_on_char ':' t with
                     | [_; n; cnt] -> xfiles := (str_of_string (unhex n), str_of_string (unhex cnt)) :: !xfiles
                     | _ -> raise (Unsupported "xfile token"))
+                 else if starts "GS:" t then ()      (* flags of the Groups singleton: usage behaviour only *)
                  else if starts "xdir:" t then
                    (* a directory opens like a file and delivers no line *)
                    xfiles := (str_of_string (unhex (after "xdir:" t)), []) :: !xfiles
